@@ -88,6 +88,9 @@ impl Params {
 pub enum Val {
     P { len: u32, seed: u32 },
     B(#[serde(with = "hexser")] Vec<u8>),
+    /// `len` bytes of mostly well-formed UTF-8 text made of 1-, 2-, 3- and 4-byte characters,
+    /// with a few stray invalid bytes at seed-dependent positions
+    U { len: u32, seed: u32 },
 }
 
 impl Val {
@@ -95,11 +98,12 @@ impl Val {
         match self {
             Val::P { len, seed } => pattern_bytes(*len as usize, *seed),
             Val::B(b) => b.clone(),
+            Val::U { len, seed } => utf8ish_bytes(*len as usize, *seed),
         }
     }
     pub fn len(&self) -> usize {
         match self {
-            Val::P { len, .. } => *len as usize,
+            Val::P { len, .. } | Val::U { len, .. } => *len as usize,
             Val::B(b) => b.len(),
         }
     }
@@ -122,6 +126,32 @@ pub fn pattern_bytes(len: usize, seed: u32) -> Vec<u8> {
     }
     if len > 0 && v[0] == 0 {
         v[0] = 0xA5;
+    }
+    v
+}
+
+/// mostly well-formed UTF-8 of mixed character widths with a few invalid bytes
+pub fn utf8ish_bytes(len: usize, seed: u32) -> Vec<u8> {
+    let chars = ['a', 'Z', ' ', 'é', 'ß', 'λ', '語', '日', '本', '€', '😀', '𝄞'];
+    let mut v: Vec<u8> = Vec::with_capacity(len + 4);
+    let mut x: u64 = 0xD1B5_4A32_D192_ED03 ^ ((seed as u64) << 20) ^ len as u64;
+    // the character phase is varied by the seed so that any byte position can fall inside a character
+    while v.len() < len {
+        x ^= x << 13;
+        x ^= x >> 7;
+        x ^= x << 17;
+        let c = chars[(x % chars.len() as u64) as usize];
+        let mut b = [0u8; 4];
+        v.extend_from_slice(c.encode_utf8(&mut b).as_bytes());
+    }
+    v.truncate(len);
+    // a few stray bytes
+    if len > 0 {
+        let n = 1 + (seed as usize % 3);
+        for i in 0..n {
+            let pos = ((x >> (8 * i)) as usize).wrapping_mul(2654435761) % len;
+            v[pos] = [0xFFu8, 0xC0, 0x80][i % 3];
+        }
     }
     v
 }
@@ -196,22 +226,22 @@ pub const ITER_FLAVOURS: [&str; 7] = [
 
 #[derive(Serialize, Deserialize, Clone, Debug, PartialEq, Eq)]
 pub enum Op {
-    Put { k: u16, v: Val },
-    Get { k: u16 },
-    Del { k: u16 },
-    Inc { k: u16 },
+    Put { k: u32, v: Val },
+    Get { k: u32 },
+    Del { k: u32 },
+    Inc { k: u32 },
     Len,
     IsEmpty,
-    PutStr { k: u16, v: Val },
-    GetStr { k: u16 },
-    DelStr { k: u16 },
-    BulkGet { ks: Vec<u16> },
-    BulkGetStr { ks: Vec<u16> },
-    BulkDel { ks: Vec<u16> },
-    BulkDelStr { ks: Vec<u16> },
-    BulkPut { kvs: Vec<(u16, Val)> },
-    BulkPutStr { kvs: Vec<(u16, Val)> },
-    PutFromIter { kvs: Vec<(u16, Val)> },
+    PutStr { k: u32, v: Val },
+    GetStr { k: u32 },
+    DelStr { k: u32 },
+    BulkGet { ks: Vec<u32> },
+    BulkGetStr { ks: Vec<u32> },
+    BulkDel { ks: Vec<u32> },
+    BulkDelStr { ks: Vec<u32> },
+    BulkPut { kvs: Vec<(u32, Val)> },
+    BulkPutStr { kvs: Vec<(u32, Val)> },
+    PutFromIter { kvs: Vec<(u32, Val)> },
     /// flavour index into ITER_FLAVOURS; take = None consumes everything (+3 extra next())
     Iter { f: u8, take: Option<u16> },
     Stats,
@@ -230,7 +260,7 @@ pub enum Op {
     /// clone the db handle and re-acquire through the clone
     CloneDb,
     /// switch the current map (C11)
-    Use { m: u8 },
+    Use { m: u16 },
     /// drop everything, reopen (in process), optionally verifying in a child process first
     Reopen { params: Params, child: bool, order: u8 },
 }
